@@ -55,10 +55,15 @@ def build_regex_string(tokens, invert=False):
 
 FUNC_LEN = len("function")
 
+# bash separates words at blanks and newlines only.  str.isspace() is also true
+# for printable non-ASCII spaces (no-break space, ideographic space, ...), which
+# bash writes raw and unquoted into a dump (printf %q, set): only the ASCII
+# whitespace characters may end a word here.
+isspace = frozenset(" \t\n\r\x0b\x0c\x1c\x1d\x1e\x1f").__contains__
+
 
 def is_function(buff, pos):
     """:return: start, end, pos or None, None, None tuple."""
-    isspace = str.isspace
     try:
         while buff[pos] in " \t":
             pos += 1
@@ -129,7 +134,6 @@ def process_scope(
 ):
     window_start = pos
     window_end = None
-    isspace = str.isspace
     end = len(buff)
     while pos < end and buff[pos] != endchar:
         # Wander forward to the next non space.
@@ -251,7 +255,6 @@ def walk_here_statement(buff, pos, endchar=None):
             "correction, it's a third level here. Handing back to command parsing"
         )
         return pos + 1
-    isspace = str.isspace
     end = len(buff)
     # <<- : the terminating line may be indented with tabs
     strip_tabs = buff[pos] == "-"
@@ -292,7 +295,7 @@ def walk_here_statement(buff, pos, endchar=None):
 
 
 def walk_statement_pound(buff, pos, endchar=None):
-    if pos and not buff[pos - 1].isspace():
+    if pos and not isspace(buff[pos - 1]):
         return pos + 1
     if endchar == "`":
         i = buff.find("\n", pos)
@@ -314,7 +317,6 @@ def walk_statement_pound(buff, pos, endchar=None):
 
 def walk_command_complex(buff, pos, endchar, interpret_level):
     start = pos
-    isspace = str.isspace
     end = len(buff)
     while pos < end:
         ch = buff[pos]
@@ -406,7 +408,7 @@ def walk_dollar_expansion(buff, pos, end, endchar, disable_quote=False):
             # short circuit it.
             return pos + 1
         while pos < end and buff[pos] != endchar:
-            if buff[pos].isspace():
+            if isspace(buff[pos]):
                 return pos
             if buff[pos] == "$":
                 # shouldn't this be passing disable_quote ?
